@@ -367,9 +367,21 @@ pub fn gen_thread(class: &str, seed: u64, idx: u64) -> ThreadScenario {
         sc.fixed_hays.push(h);
     }
     let (nthreads, ops_lo, ops_hi) = match class {
-        "hist" => (1, 12, 40),
+        // mostly short histories; some long and a few very long ones on the same
+        // long-lived searcher (adaptive heuristics / counters with thresholds)
+        "hist" => match r.weighted(&[80, 15, 5]) {
+            0 => (1, 12, 40),
+            1 => (1, 100, 300),
+            _ => (1, 600, 1500),
+        },
         "miri" => (r.range(2, 3), 1, 3),
-        _ => (r.range(2, 4), 2, 8),
+        _ => {
+            if r.chance(1, 10) {
+                (r.range(2, 3), 20, 60)
+            } else {
+                (r.range(2, 4), 2, 8)
+            }
+        }
     };
     for _ in 0..nthreads {
         let n = r.range(ops_lo, ops_hi);
